@@ -11,13 +11,19 @@ open MakoModel.Generated.ModFile
 theorem writeLoops_on : writeLoops = true := by decide
 /-- `_compile_module_file` removes the cached bytecode of the file it replaced (fix of F-C15-2) -/
 theorem dropsBytecode_on : dropsBytecode = true := by decide
+/-- … also after a user-supplied `module_writer` (the removal sits after the if/else) -/
+theorem dropsBytecodeHook_on : dropsBytecodeHook = true := by decide
+/-- the source's mtime is compared in whole seconds, like the module's (`[stat.ST_MTIME]` on both sides): the
+`Nat` time stamps of the model are what the code compares -/
+theorem mtimes_whole_seconds : mtimesWholeSeconds = true := by decide
 
 theorem guard_all (p : Plan) : p.guard := Or.inl writeLoops_on
 
 theorem afterGroup_coherent (w : World) (g : GroupOut) : PycCoherent (afterGroup w g) := by
   intro m s c f hp
-  have := (afterGroup_pyc hp).1
-  rw [dropsBytecode_on] at this; cases this
+  have := (afterGroup_pyc' hp).1
+  rw [dropsBytecode_on, dropsBytecodeHook_on] at this
+  cases hv : g.viaHook <;> simp [hv] at this
 
 theorem loadMod_pyc_cases (w : World) :
     (loadMod w).2 = w.pyc ∨ ∃ f, w.fs .mod = some f ∧ (loadMod w).2 = some (f.mtime, f.content.size, f.content) := by
